@@ -238,3 +238,34 @@ def returns_held_buffer(fn):
         if isinstance(r, ast.Return) and isinstance(r.value, ast.Name) and r.value.id in views and views[r.value.id] in written:
             out.append((r, views[r.value.id]))
     return out
+
+
+def carried_between_iterations(fn):
+    """[(statement, name)]: inside a loop a name that exists before the loop (a parameter or an earlier local) is rebound to a value computed
+    from itself, and that name is then read by other statements of the same iteration: what one iteration computes depends on the iterations
+    before it (the term of the i-th species contains the velocities of the species before it).  Accumulators -- names only updated in the
+    loop and read after it -- are not reported."""
+    out = []
+    params = {a.arg for a in fn.args.posonlyargs + fn.args.args + fn.args.kwonlyargs}
+    for lp in ast.walk(fn):
+        if not isinstance(lp, (ast.For, ast.While)):
+            continue
+        body_stmts = [st for b in lp.body for st in ast.walk(b)]
+        for st in body_stmts:
+            if not (isinstance(st, ast.Assign) and len(st.targets) == 1 and isinstance(st.targets[0], ast.Name)):
+                continue
+            n = st.targets[0].id
+            if not any(isinstance(x, ast.Name) and x.id == n for x in ast.walk(st.value)):
+                continue
+            before = n in params or any(isinstance(s2, ast.Assign) and any(isinstance(t, ast.Name) and t.id == n for t in s2.targets) and s2.lineno < lp.lineno
+                                        for s2 in ast.walk(fn))
+            if not before:
+                continue
+            # an accumulation 'n = n + term' / 'n = n * term' whose result is only read after the loop is the ordinary idiom
+            readers = [s2 for s2 in body_stmts if s2 is not st and isinstance(s2, (ast.Assign, ast.AugAssign, ast.Expr, ast.Return, ast.If))
+                       and any(isinstance(x, ast.Name) and x.id == n and isinstance(x.ctx, ast.Load)
+                               for x in ast.walk(s2.value if not isinstance(s2, ast.If) else s2.test))
+                       and not (isinstance(s2, ast.AugAssign) and isinstance(s2.target, ast.Name) and s2.target.id == n)]
+            if readers:
+                out.append((st, n))
+    return out
